@@ -24,8 +24,8 @@ class SdoServer(SdoBase):
         self._node = node
         self._buffer = None
         self._toggle = 0
-        self._index = None
-        self._subindex = None
+        self._index = 0
+        self._subindex = 0
         self.last_received_error = 0x00000000
 
     def on_request(self, can_id, data, timestamp):
